@@ -168,4 +168,4 @@ def cases(draw):
 
 
 def subs(tier):
-    return [Sub("family", cases(), run_case, quick=512, thorough=6000, needs=("rel", "h5x"), shrink_budget=40)]
+    return [Sub("family", cases(), run_case, quick=384, thorough=6000, needs=("rel", "h5x"), shrink_budget=40)]
